@@ -301,8 +301,9 @@ def gen_streams_edge(rng, w, names=None):
                 for nm in rng.sample(names, rng.randint(1, len(names))):
                     if nm not in tl:
                         tl.insert(rng.randrange(len(tl) + 1), nm)
-            if rng.random() < 0.4:
-                tl.insert(rng.randrange(len(tl) + 1), rng.choice(['_metrics', '_h']))
+            hid = rng.choice(['_metrics', '_h'])
+            if rng.random() < 0.4 and hid not in tl:
+                tl.insert(rng.randrange(len(tl) + 1), hid)
         parts = []
         for t in tl:
             pay = w.new_pay(src=0, sid=sid, mid=mid, topic=t, topics=tl)
